@@ -212,6 +212,68 @@ MinorBuild(x, y) ==
   IN Park(p1.cells, Other(side), side, 0, -1, y[4], 1)
 
 (***************************************************************************)
+(* F_ROOKCAP: a rook that still carries its castling right is captured on  *)
+(* its home corner by every kind of man from every square that reaches it  *)
+(* (the king included), or a spare rook moves onto / along the corner file.*)
+(*   coarse: corner (1..4) ; fine: piece type, source square, extra flag   *)
+(***************************************************************************)
+Corners == <<0, 7, 56, 63>>
+RookCapCoarse == {<<i>> : i \in 1..4}
+RookCapFine(x) ==
+  LET corner == Corners[x[1]] IN
+  {<<p, s, both>> \in {K, N, B, R, Q, P} \X Sq \X {0, 1} :
+      s # corner /\ (CASE p = K -> corner \in KingSet[s]
+                         [] p = N -> corner \in KnightSet[s]
+                         [] p = B -> corner \in SlideAttacks({}, s, DiagDirs)
+                         [] p = R -> corner \in SlideAttacks({}, s, OrthDirs)
+                         [] p = Q -> corner \in SlideAttacks({}, s, AllDirs)
+                         [] p = P -> Abs(FileOf(s) - FileOf(corner)) = 1 /\ Abs(RankOf(s) - RankOf(corner)) = 1)}
+RookCapBuild(x, y) ==
+  LET corner == Corners[x[1]]
+      victim == IF RankOf(corner) = 0 THEN Black ELSE White        \* owner of the corner rook
+      side == Other(victim)
+      r == HomeRank(victim)
+      c0 == Place(Place(EmptyCells, MkSq(4, r), MkCell(victim, K)), corner, MkCell(victim, R))
+      c1 == IF y[3] = 1 THEN Place(c0, MkSq(7 - FileOf(corner), r), MkCell(victim, R)) ELSE c0
+      cr == RightsOfSet({<<victim, sd>> : sd \in {sd \in {0, 1} : c1[RookHome(victim, sd)] = MkCell(victim, R)}})
+      c2 == IF c1[y[2]] # 0 THEN EmptyCells ELSE Place(c1, y[2], MkCell(side, y[1]))
+  IN IF y[1] = K THEN MkPos(c2, side, cr, -1, 0, 1) ELSE Park(c2, side, side, cr, -1, 0, 1)
+
+(***************************************************************************)
+(* F_EPCHK: an en-passant capture that GIVES (discovered) check: own       *)
+(* slider, enemy king anywhere.                                            *)
+(***************************************************************************)
+EpChkCoarse == EpCoarse
+EpChkFine(x) == Sq \X Sq \X SliderPieces
+EpChkBuild(x, y) ==
+  LET side == x[1]  vf == x[2]  opp == Other(side)
+      r == EpSrcRank(side)
+      victim == MkSq(vf, r)
+      c0 == Place(EmptyCells, victim, MkCell(opp, P))
+      c1 == IF x[3] = 1 /\ vf > 0 THEN Place(c0, MkSq(vf - 1, r), MkCell(side, P)) ELSE c0
+      c2 == IF x[4] = 1 /\ vf < 7 THEN Place(c1, MkSq(vf + 1, r), MkCell(side, P)) ELSE c1
+      eksq == y[1]  ssq == y[2]
+  IN IF c2[eksq] # 0 \/ c2[ssq] # 0 \/ eksq = ssq \/ eksq = Shift(victim, 0, Fwd(side)) \/ ssq = Shift(victim, 0, Fwd(side))
+     THEN MkPos(EmptyCells, side, 0, -1, 0, 1)
+     ELSE Park(Place(Place(c2, eksq, MkCell(opp, K)), ssq, MkCell(side, y[3])), side, side, 0, victim, 0, 1)
+
+(***************************************************************************)
+(* F_MULTICHK: the king of the side to move attacked by THREE men at once  *)
+(* (a knight, a diagonal slider and an orthogonal slider): unreachable in  *)
+(* play, valid for the library.                                            *)
+(***************************************************************************)
+MultiCoarse == {<<k, side>> \in Sq \X {0, 1} : TRUE}
+MultiFine(x) ==
+  LET k == x[1] IN
+  {<<n, d, dp, o, op>> \in KnightSet[k] \X SlideAttacks({}, k, DiagDirs) \X {B, Q}
+                           \X SlideAttacks({}, k, OrthDirs) \X {R, Q} : TRUE}
+MultiBuild(x, y) ==
+  LET k == x[1]  side == x[2]  opp == Other(side)
+      c == Place(Place(Place(Place(EmptyCells, k, MkCell(side, K)), y[1], MkCell(opp, N)), y[2], MkCell(opp, y[3])),
+                 y[4], MkCell(opp, y[5]))
+  IN Park(c, opp, side, 0, -1, 0, 1)
+
+(***************************************************************************)
 (* F_RAW: raw boards at the validity boundary (emitted whether valid or    *)
 (* not): a valid skeleton with one disturbance.                            *)
 (*   kind 0 extra king (colour a on square b)      kind 1 king of colour a removed                 *)
@@ -219,6 +281,10 @@ MinorBuild(x, y) ==
 (*   kind 4 rights set b after removing the man on home square index c (0 none)                    *)
 (*   kind 5 colour a gets b extra knights (reaching 15..18 men)                                    *)
 (*   kind 6 a man of type c, colour = side to move, on square b (may attack the waiting king)      *)
+(*   kind 7 home squares e/a/h of colour a filled with every combination c of {empty, own rook,    *)
+(*          own king} (3^3), rights set b                                                          *)
+(*   kind 8 e.p. structure of skeleton 2/3 with a man of cell value b on the ORIGIN square of the  *)
+(*          double step (two ranks behind the marked pawn) or on the square passed over (c = 1)    *)
 (***************************************************************************)
 Skeleton(i) ==
   CASE i = 1 -> MkPos(Place(Place(Place(Place(Place(Place(EmptyCells, 60, MkCell(White, K)), 4, MkCell(Black, K)),
@@ -231,7 +297,7 @@ Skeleton(i) ==
                                   28, MkCell(Black, P)), 27, MkCell(White, P)), 35, MkCell(White, P)), 36, MkCell(Black, P)),
                       Black, 0, 35, 0, 1)
 HomeSquares == <<-1, 0, 4, 7, 56, 60, 63>>
-RawCoarse == {<<i, k>> \in (1..3) \X (0..6) : TRUE}
+RawCoarse == {<<i, k>> \in (1..3) \X (0..8) : TRUE}
 RawFine(x) ==
   LET k == x[2] IN
   CASE k = 0 -> {<<a, b, 0>> : a \in {0, 1}, b \in Sq}
@@ -241,6 +307,8 @@ RawFine(x) ==
     [] k = 4 -> {<<0, b, c>> : b \in 0..15, c \in 1..7}
     [] k = 5 -> {<<a, b, 0>> : a \in {0, 1}, b \in 11..16}
     [] k = 6 -> {<<0, b, c>> : b \in Sq, c \in {P, N, B, R, Q}}
+    [] k = 7 -> {<<a, b, c>> : a \in {0, 1}, b \in 0..15, c \in 0..26}
+    [] k = 8 -> {<<0, b, c>> : b \in 0..12, c \in {0, 1}}
 RECURSIVE AddKnights(_, _, _, _)
 AddKnights(c, color, n, q) ==
   IF n = 0 \/ q > 55 THEN c
@@ -256,18 +324,31 @@ RawBuild(x, y) ==
     [] k = 5 -> [sk EXCEPT !.cells = AddKnights(c, y[1], y[2], 8)]
     [] k = 6 -> [sk EXCEPT !.cells = IF c[y[2]] # 0 \/ (y[3] = P /\ RankOf(y[2]) \in {0, 7}) THEN c
                                       ELSE Place(c, y[2], MkCell(sk.side, y[3]))]
+    [] k = 7 -> LET col == y[1]  r == HomeRank(col)
+                    what(d) == IF d = 0 THEN 0 ELSE IF d = 1 THEN MkCell(col, R) ELSE MkCell(col, K)
+                    \* remove that colour's king from the skeleton, then fill e / a / h
+                    c0 == [q \in Sq |-> IF c[q] = MkCell(col, K) \/ RankOf(q) = r THEN 0 ELSE c[q]]
+                    c1 == Place(Place(Place(c0, MkSq(4, r), what(y[3] % 3)), MkSq(0, r), what((y[3] \div 3) % 3)),
+                                MkSq(7, r), what(y[3] \div 9))
+                    \* if no king was placed on the home squares, park one
+                    c2 == IF \E q \in Sq : c1[q] = MkCell(col, K) THEN c1 ELSE ParkCells(c1, col)
+                IN [sk EXCEPT !.cells = c2, !.castling = y[2]]
+    [] k = 8 -> IF sk.ep = -1 THEN sk
+                ELSE LET back == Shift(sk.ep, 0, (IF y[3] = 1 THEN 1 ELSE 2) * Fwd(sk.side)) IN
+                     IF back = -1 \/ c[back] \in {MkCell(0, K), MkCell(1, K)} THEN sk
+                     ELSE [sk EXCEPT !.cells = Place(c, back, y[2])]
 
-FamilyNames == {"EP", "EPEDGE", "ONLYEP", "PIN", "CASTLE", "PROMO", "MAT", "CHK", "AMBIG", "RAW", "MINOR"}
+FamilyNames == {"EP", "EPEDGE", "ONLYEP", "PIN", "CASTLE", "PROMO", "MAT", "CHK", "AMBIG", "RAW", "MINOR", "MULTICHK", "ROOKCAP", "EPCHK"}
 Coarse(f) ==
   CASE f = "EP" -> EpCoarse [] f = "EPEDGE" -> EdgeCoarse [] f = "ONLYEP" -> OnlyEpCoarse
     [] f = "PIN" -> PinCoarse [] f = "CASTLE" -> CastleCoarse [] f = "PROMO" -> PromoCoarse
-    [] f = "MAT" -> MatCoarse [] f = "CHK" -> ChkCoarse [] f = "AMBIG" -> AmbigCoarse [] f = "RAW" -> RawCoarse [] f = "MINOR" -> MinorCoarse
+    [] f = "MAT" -> MatCoarse [] f = "CHK" -> ChkCoarse [] f = "AMBIG" -> AmbigCoarse [] f = "RAW" -> RawCoarse [] f = "MINOR" -> MinorCoarse [] f = "MULTICHK" -> MultiCoarse [] f = "ROOKCAP" -> RookCapCoarse [] f = "EPCHK" -> EpChkCoarse
 Fine(f, x) ==
   CASE f = "EP" -> EpFine(x) [] f = "EPEDGE" -> EdgeFine(x) [] f = "ONLYEP" -> OnlyEpFine(x)
     [] f = "PIN" -> PinFine(x) [] f = "CASTLE" -> CastleFine(x) [] f = "PROMO" -> PromoFine(x)
-    [] f = "MAT" -> MatFine(x) [] f = "CHK" -> ChkFine(x) [] f = "AMBIG" -> AmbigFine(x) [] f = "RAW" -> RawFine(x) [] f = "MINOR" -> MinorFine(x)
+    [] f = "MAT" -> MatFine(x) [] f = "CHK" -> ChkFine(x) [] f = "AMBIG" -> AmbigFine(x) [] f = "RAW" -> RawFine(x) [] f = "MINOR" -> MinorFine(x) [] f = "MULTICHK" -> MultiFine(x) [] f = "ROOKCAP" -> RookCapFine(x) [] f = "EPCHK" -> EpChkFine(x)
 Build(f, x, y) ==
   CASE f = "EP" -> EpBuild(x, y) [] f = "EPEDGE" -> EdgeBuild(x, y) [] f = "ONLYEP" -> OnlyEpBuild(x, y)
     [] f = "PIN" -> PinBuild(x, y) [] f = "CASTLE" -> CastleBuild(x, y) [] f = "PROMO" -> PromoBuild(x, y)
-    [] f = "MAT" -> MatBuild(x, y) [] f = "CHK" -> ChkBuild(x, y) [] f = "AMBIG" -> AmbigBuild(x, y) [] f = "RAW" -> RawBuild(x, y) [] f = "MINOR" -> MinorBuild(x, y)
+    [] f = "MAT" -> MatBuild(x, y) [] f = "CHK" -> ChkBuild(x, y) [] f = "AMBIG" -> AmbigBuild(x, y) [] f = "RAW" -> RawBuild(x, y) [] f = "MINOR" -> MinorBuild(x, y) [] f = "MULTICHK" -> MultiBuild(x, y) [] f = "ROOKCAP" -> RookCapBuild(x, y) [] f = "EPCHK" -> EpChkBuild(x, y)
 =============================================================================
